@@ -29,6 +29,12 @@ def check(ctx: Ctx):
     from ..rules import support as _support
 
     _support.check_ctor_dtype_precedence(ctx)
+    _support.check_copy_filter_strict(ctx)
+    # removing overlaps is one of the operations: the surface distance it compares is centre distance minus both members' radii
+    from ..rules import collections as _colp
+
+    _support.compose(ctx, _colp.check_pairwise, keep=("SURFACE", "SYMM"))
+    ctx.expect("SURFACE", 1)
     m = ctx.model
     ctx.explain(
         "Ownership (who-may-store over all functions of the package, copy-on-insert dataflow on default paths), fresh derivations through "
